@@ -90,11 +90,17 @@ def run(ctx):
                        "set_removed/purge_removed are exercised in growth modes no/yes only (which items are in the current "
                        "block under auto_grow::internal depends on the growth policy)",
                        "sizeof constants of the item classes are static_assert-ed in the harness against the spec's"]
+    # extension (specs/BufferExt.tla): areas, CallbackBuffer, nested chain in place, purge in all growth modes
+    import C04ext
+    C04ext.run_part(ctx)
 
 
 def replay(ctx, path):
     with open(path) as fh:
         d = json.load(fh)
+    if str(d.get("signature", "")).startswith("ext:"):
+        import C04ext
+        return C04ext.replay_case(ctx, d)
     c = d["case"]["case"]
     run_cases(ctx, [c])
     ctx.evaluations = len(c["steps"])
